@@ -104,6 +104,10 @@ def core_models():
         'donchian_lower': (lambda x, p: f'(donchian_lower {p}%nat {x})', lambda cs, p: ta.donchian(np.array(cs), p, sequential=True).lowerband, 'candles', 'exact'),
         'willr': (lambda x, p: f'(willr {p}%nat {x})', lambda cs, p: ta.willr(np.array(cs), p, sequential=True), 'candles', 'bounded'),
         'stoch_k': (lambda x, p: f'(stoch_k {p}%nat {x})', lambda cs, p: ta.stochf(np.array(cs), p, 3, 0, sequential=True).k, 'candles', 'defined'),
+        'mfi': (lambda x, p: f'(mfi {p}%nat {x})', lambda cs, p: ta.mfi(np.array(cs), p, sequential=True), 'candles', 'bounded'),
+        'keltner_upper': (lambda x, p: f'(keltner_upper {p}%nat (qofnat {p % 3 + 1}) {x})', lambda cs, p: ta.keltner(np.array(cs), p, p % 3 + 1, sequential=True).upperband, 'candles', 'exact'),
+        'keltner_middle': (lambda x, p: f'(keltner_middle {p}%nat {x})', lambda cs, p: ta.keltner(np.array(cs), p, p % 3 + 1, sequential=True).middleband, 'candles', 'exact'),
+        'keltner_lower': (lambda x, p: f'(keltner_lower {p}%nat (qofnat {p % 3 + 1}) {x})', lambda cs, p: ta.keltner(np.array(cs), p, p % 3 + 1, sequential=True).lowerband, 'candles', 'exact'),
         'typprice': (lambda x, p: f'(some (typprice {x}))', lambda cs, p: ta.typprice(np.array(cs), sequential=True), 'candles', 'exact'),
         'medprice': (lambda x, p: f'(some (medprice {x}))', lambda cs, p: ta.medprice(np.array(cs), sequential=True), 'candles', 'exact'),
     }
